@@ -1,12 +1,13 @@
 """C08: keys are derived and encoded exactly as the hash-sigs reference does."""
 from .common import *
 import rfc8554 as R
+import hashsigs
 
 RULE = ("all 6 hashes x parameter lists of 1..8 levels (every W; heights H2/H5, one H10) x random seeds: private key blob and public key bytes compared with the "
         "Impl model and with an independent transcription of the hash-sigs derivation (tools/rfc8554.py); internal derivations (root seed/I, child seed/I, "
         "randomizer, tree nodes) compared through hooks")
-ASSUMPTIONS = ["no hash-sigs binary is available offline: the oracle is a transcription of the construction as the property states it",
-               "upstream's ignored tests/reference_implementation.rs is the only end-to-end anchor to the real tool"]
+ASSUMPTIONS = ["for SHA-256/32 the cisco hash-sigs tool shipped in the repository (tests/demo) is run on the same seed and parameter list and its key files are compared byte for byte",
+               "for the other five hashes (which hash-sigs does not implement) the oracle is an independent transcription of the same construction (tools/rfc8554.py)"]
 
 
 def run(ctx):
@@ -31,6 +32,27 @@ def run(ctx):
         if unhx(f["vk"]) != pk:
             ctx.fail("public key differs from the hash-sigs derivation", [c.line], f["vk"], pk.hex())
         keys.append((H, ps, seed, blob))
+    # the real hash-sigs tool (SHA-256/32, heights >= 5 only)
+    if hashsigs.available():
+        hs = hashsigs.HashSigs()
+        try:
+            lists = [[(3, 5)], [(4, 5), (2, 5)], [(1, 5), (3, 5)], [(2, 5), (3, 5), (4, 5)], [(3, 5)] * 4, [(4, 6)], [(3, 5), (4, 6)]]
+            if ctx.tier == "thorough":
+                lists += [[(rng.choice([1, 2, 3, 4]), 5) for _ in range(rng.choice([1, 2, 3, 5, 8]))] for _ in range(12)] + [[(4, 6), (3, 5)], [(3, 7)]]
+            hcases = []
+            for ps in lists:
+                seed = rng.bytes_(32)
+                name, prv, pub, aux = hs.genkey(ps, seed, 0)
+                hcases.append(Case(keygen_line("S32", ps, seed), "keygen/hash-sigs-tool", {"ref": (prv, pub)}))
+            for c, a, b in ctx.both(hcases, None):
+                f = fields(a)
+                prv, pub = c.meta["ref"]
+                if f.get("sk") != prv.hex() or f.get("vk") != pub.hex():
+                    ctx.fail("key pair differs from what the cisco hash-sigs tool generates from the same seed", [c.line], "sk=%s vk=%s" % (f.get("sk"), f.get("vk")), "sk=%s vk=%s" % (prv.hex(), pub.hex()))
+        finally:
+            hs.close()
+    else:
+        ctx.notes.append("tests/demo (hash-sigs tool) not available: reference comparison skipped")
     cases = []
     for (H, ps, seed, blob) in keys[: (12 if ctx.tier == "quick" else 60)]:
         cases.append(Case("rootseed H=%s sk=%s" % (H, hx(blob)), "derive/root", {"k": (H, ps, seed)}))
